@@ -101,6 +101,13 @@ def split_oracle(n, k, kind):
                   if 'ok' in kz and kz['ok'] != list(parts[i].keys()):
                       out.append(('lazy_shard_keys', {'n': n, 'k': k, 'i': i, 'keys': kz['ok'], 'keys_of_split': list(parts[i].keys())}))
                       break
+                  # keyed iteration of the lazy shard (the only way to its keys when keys() is refused): (key, example)
+                  # pairs of exactly this shard, or a refusal - never bare examples or another shard's pairs
+                  iz = outcome(lambda: list(lz.items()), lambda x: x)
+                  want_iz = list(zip(parts[i].keys(), lists[i]))
+                  if iz != {'ok': want_iz} and iz.get('err') != 'ItemsNotDefined':
+                      out.append(('lazy_shard_items', {'n': n, 'k': k, 'i': i, 'items': iz, 'want': want_iz}))
+                      break
           if kind == 'dict':
               keys = [list(p.keys()) for p in parts]
               if [x for l in keys for x in l] != list(ds.keys()):
